@@ -116,7 +116,8 @@ type walDrv struct {
 	imgDir                                             string
 	saved                                              []wSnap // markers saved by the running history
 	where                                              string
-	typeFlips, misname, entiLost                       bool
+	typeFlips, misname, entiLost, procOnly, hole0      bool
+	maxEntBytes                                        int
 	lastEnt, maxMark                                   int
 	imgBase                                            string
 	imgSeq                                             int
@@ -235,6 +236,22 @@ func (d *walDrv) payload(x, size int) []byte {
 		return nil
 	}
 	b := make([]byte, size)
+	if size > 4*1024*1024 {
+		// large payloads: a seeded 64 KB block repeated with a running counter (no zero bytes)
+		r := rand.New(rand.NewSource(int64(x)*7919 + 13))
+		blk := make([]byte, 65536)
+		for i := range blk {
+			blk[i] = byte(1 + r.Intn(255))
+		}
+		for o := 0; o < size; o += len(blk) {
+			n := copy(b[o:], blk)
+			if n >= 8 {
+				binary.LittleEndian.PutUint32(b[o+4:], uint32(o)|0x01010101)
+			}
+		}
+		binary.LittleEndian.PutUint32(b[0:], uint32(x)|0x80000000)
+		return b
+	}
 	r := rand.New(rand.NewSource(int64(x)*7919 + 13))
 	zeroRun := x%5 == 0 && size > 1200 // some payloads carry a long run of zero bytes
 	for i := range b {
@@ -467,7 +484,7 @@ func (d *walDrv) emitImage(kind string, off int64, segs []*wSeg, tailImg []byte,
 			n += len(s.frames)
 		}
 	}
-	if kind == "flip" {
+	if kind == "flip" || kind == "hole" {
 		n = wNrec(segs)
 	} else if tailImg != nil {
 		k, t := wClassify(segs[ti], tailImg)
@@ -508,7 +525,7 @@ func (d *walDrv) emitImage(kind string, off int64, segs []*wSeg, tailImg []byte,
 	for _, s := range segs {
 		for fi := range s.frames {
 			g++
-			if kind == "flip" {
+			if kind == "flip" || kind == "hole" {
 				if g == flipRec {
 					continue
 				}
@@ -527,11 +544,13 @@ func (d *walDrv) emitImage(kind string, off int64, segs []*wSeg, tailImg []byte,
 		res2, _, _ = d.reopen(d.imgDir, snap, false)
 	}
 	mk := kind
-	if kind != "proc" && kind != "flip" {
+	if kind == "hole" {
+		mk = "flip" // judged like a corrupted record: error, cut at the hole, or no visible effect
+	} else if kind != "proc" && kind != "flip" {
 		mk = "power"
 	}
 	where := ""
-	if kind == "flip" {
+	if kind == "flip" || kind == "hole" {
 		where = d.where
 	}
 	pan := strings.HasPrefix(res.Err, "PANIC") || strings.HasPrefix(res2.Err, "PANIC") || strings.HasPrefix(v.Err, "PANIC") || strings.HasPrefix(ver, "PANIC")
@@ -567,6 +586,15 @@ func (d *walDrv) images(dense bool) {
 	d.emitImage("proc", 0, segs, nil, -1, 0, 0)
 	if d.rng.Intn(4) == 0 {
 		d.emitImage("proc", 0, segs, nil, -1, 0, 1+d.rng.Intn(4))
+	}
+	if d.hole0 && len(segs) < 2 {
+		return
+	}
+	if d.procOnly {
+		// size-threshold histories: the directory as it is, opened at several snapshots
+		d.emitImage("proc", 0, segs, nil, -1, 0, 1)
+		d.emitImage("proc", 0, segs, nil, -1, 0, 4)
+		return
 	}
 	end := wEndOf(tailSeg)
 	dur := d.durOff[tailSeg.name]
@@ -625,6 +653,9 @@ func (d *walDrv) images(dense bool) {
 		}
 		ol = o2
 	}
+	if d.hole0 {
+		ol = nil
+	}
 	for _, o := range ol {
 		img := make([]byte, size)
 		copy(img, tailSeg.data[:o])
@@ -643,7 +674,7 @@ func (d *walDrv) images(dense bool) {
 	}
 	// one whole sector of the unsynced region never arrived
 	nsect := (end-dur)/walSector + 1
-	for s := dur / walSector; s*walSector < end; s++ {
+	for s := dur / walSector; s*walSector < end && !d.hole0; s++ {
 		if !dense && nsect > 8 && s != dur/walSector && (s+1)*walSector < end && d.rng.Int63n(nsect) >= 6 {
 			continue // sparse mode: first, last and about six sampled sectors
 		}
@@ -663,6 +694,47 @@ func (d *walDrv) images(dense bool) {
 			img[p] = 0
 		}
 		d.emitImage("sector", lo, segs, img, ti, 0, d.snapMode())
+	}
+	// an older segment that ends early at a record boundary (its last records never reached
+	// the disk, zeros or EOF instead) while the following segments are intact: the CRC chain
+	// across segments has to notice the hole
+	gbase := 0
+	for si, s := range segs[:ti] {
+		nf := len(s.frames)
+		if d.hole0 && si > 0 {
+			break
+		}
+		if nf >= 2 && (dense || d.hole0 || d.rng.Intn(2) == 0) {
+			cutAt := nf - 1 - d.rng.Intn(wMin(3, nf-1)) // first missing frame (0-based), at least one frame stays
+			if si == 0 && cutAt < 2 {
+				// known finding C05-crc-chain-vacuous-after-first-crc: a first segment that keeps
+				// nothing but its leading crc record is left to the isolate stage
+				cutAt = 2
+				if nf <= 2 {
+					gbase += nf
+					continue
+				}
+			}
+			if d.hole0 {
+				cutAt = 1
+			}
+			f := s.frames[cutAt]
+			for v := 0; v < 2; v++ {
+				var img []byte
+				if v == 0 {
+					img = make([]byte, len(s.data)) // zeros instead of the lost records
+					copy(img, s.data[:f.off])
+				} else {
+					img = append([]byte(nil), s.data[:f.off]...) // the file simply ends there
+				}
+				d.where = "hole"
+				d.emitImage("hole", f.off, segs, img, si, gbase+cutAt+1, d.snapMode())
+			}
+		}
+		gbase += nf
+	}
+	if d.hole0 {
+		return
 	}
 	// single bit flips in the synced region of any segment
 	base := 0
@@ -879,6 +951,13 @@ func (d *walDrv) readDirNames() []string {
 
 // ---------------------------------------------------------------- history sources
 
+func wMin(a, b int) int {
+	if a < b {
+		return a
+	}
+	return b
+}
+
 func wMax(a, b int) int {
 	if a > b {
 		return a
@@ -992,6 +1071,72 @@ func wLoadSim(path string, sizes func() int) ([]wCall, error) {
 		calls = calls[:len(calls)-2]
 	}
 	return calls, sc.Err()
+}
+
+// sizes around the thresholds the wal code knows: 4 KB page of the page writer, its
+// 128 KB buffer watermark, the 1 MB marshal buffers of WAL.saveEntry / encoder.encode,
+// 2*MaxValueSize = 16 MB, the 64 MB segment, the decoder's 100 MB frame bound
+func wThresholdSize(rng *rand.Rand, class int) int {
+	j := rng.Intn(129) - 64
+	switch class {
+	case 0:
+		return 4096 + j
+	case 1:
+		return 128*1024 + j
+	case 2:
+		return 128*1024 + 4096 + j
+	case 3:
+		return 1024*1024 + j
+	case 4:
+		return 16*1024*1024 + j
+	case 5:
+		return 17*1024*1024 + rng.Intn(1<<20)
+	case 6:
+		return 100*1024*1024 - 4096 + j // just below the decoder's frame bound
+	}
+	return 64 + rng.Intn(64)
+}
+
+// scripted history whose entries sit just below / at / above those thresholds; variant 0
+// (quick) has one entry above 16 MB; variant 1 fills the 64 MB segment so that it rolls;
+// variant 2 has an entry just below 100 MB
+func wSizesHistory(rng *rand.Rand, variant int) []wCall {
+	m := &wMirror{termOf: map[int]int{}}
+	var pool []int
+	sz := func() int {
+		if len(pool) > 0 {
+			v := pool[0]
+			pool = pool[1:]
+			return v
+		}
+		return 32 + rng.Intn(200)
+	}
+	calls := []wCall{{kind: "create", opt: rng.Intn(2) == 0}}
+	// one Save whose entries cross the page-writer watermark at different alignments
+	pool = []int{wThresholdSize(rng, 0), 60000 + rng.Intn(100), wThresholdSize(rng, 1) - 64100, wThresholdSize(rng, 0)}
+	calls = append(calls, m.save("term", 1, 4, false, sz))
+	pool = []int{wThresholdSize(rng, 1), wThresholdSize(rng, 2), wThresholdSize(rng, 3)}
+	calls = append(calls, m.save("commit", m.enti+1, 3, false, sz))
+	switch variant {
+	case 0:
+		pool = []int{wThresholdSize(rng, 5)}
+		calls = append(calls, m.save("zero", m.enti+1, 1, false, sz))
+	case 1:
+		pool = []int{wThresholdSize(rng, 4), wThresholdSize(rng, 5)}
+		calls = append(calls, m.save("zero", m.enti+1, 2, false, sz))
+		pool = []int{wThresholdSize(rng, 5), 14*1024*1024 - 200000 + rng.Intn(400000)}
+		calls = append(calls, m.save("vote", m.enti+1, 2, false, sz))
+	case 2:
+		pool = []int{wThresholdSize(rng, 6)}
+		calls = append(calls, m.save("zero", m.enti+1, 1, false, sz))
+	}
+	calls = append(calls, m.save("commit", m.enti+1, 1, false, sz))
+	calls = append(calls, m.snap(m.last.C, wMax(m.last.T, 1)))
+	calls = append(calls, wCall{kind: "close"}, wCall{kind: "restart"})
+	pool = []int{wThresholdSize(rng, 3), wThresholdSize(rng, 1)}
+	calls = append(calls, m.save("zero", m.enti+1, 2, false, sz))
+	calls = append(calls, m.save("commit", m.enti+1, 0, false, sz))
+	return calls
 }
 
 // seeded history of about n calls
@@ -1108,6 +1253,9 @@ func walsim(args []string) error {
 	maxImg := fs.Int("maximg", 0, "cap on truncation offsets per call (sparse mode)")
 	imgEvery := fs.Int("imgevery", 1, "images after every k-th call only")
 	misname := fs.Bool("misname", false, "scripted histories: marker ahead of the log, commit, close, restart, term change with a roll (regression stage of the fixed finding C05-segment-misnamed-after-restart)")
+	nsizes := fs.Int("sizes", 0, "number of scripted size-threshold histories (default segment size, process-crash images only)")
+	sizeVariants := fs.Int("sizevariants", 1, "1: one entry > 16 MB; 2: also a history that fills the 64 MB segment; 3: also an entry just below 100 MB")
+	hole0 := fs.Bool("hole0", false, "isolate stage of C05-crc-chain-vacuous-after-first-crc: only images whose first segment keeps nothing but its leading crc record")
 	typeFlips := fs.Bool("typeflips", false, "only bit flips in the record-type bytes (isolate stage of C05-record-type-unprotected)")
 	noStateFirst := fs.Bool("zero-after-restart", false, "scripted histories: restart, entry-only Save that rolls the segment (regression stage of the fixed finding C05-header-without-state-after-restart)")
 	fs.Parse(args)
@@ -1125,7 +1273,7 @@ func walsim(args []string) error {
 		return err
 	}
 	d := &walDrv{tw: tw, scratch: scratch, byKind: map[string]int{}, byTail: map[string]int{}, byOutcome: map[string]int{},
-		maxImgPerCall: *maxImg, typeFlips: *typeFlips, misname: *misname}
+		maxImgPerCall: *maxImg, typeFlips: *typeFlips, misname: *misname, hole0: *hole0}
 	k := 0
 	nsim := 0
 	if *sim != "" {
@@ -1146,6 +1294,28 @@ func walsim(args []string) error {
 			d.history(calls, *dense, *imgEvery)
 			nsim++
 		}
+	}
+	for i := 0; i < *nsizes; i++ {
+		k++
+		if k%*parts != *part {
+			continue
+		}
+		d.rng = rand.New(rand.NewSource(*seed*1000003 + int64(k)))
+		d.segSize = 64 * 1000 * 1000 // the default segment size of the package
+		d.procOnly = true
+		calls := wSizesHistory(d.rng, i%*sizeVariants)
+		for _, c := range calls {
+			for _, s := range c.size {
+				if s > 1024*1024 {
+					d.nBigEnts++
+				}
+				if s > d.maxEntBytes {
+					d.maxEntBytes = s
+				}
+			}
+		}
+		d.history(calls, false, 1)
+		d.procOnly = false
 	}
 	for i := 0; i < *nrand; i++ {
 		k++
@@ -1199,6 +1369,6 @@ func walsim(args []string) error {
 	tw.Close()
 	summary(map[string]interface{}{"driver": "walsim", "part": *part, "histories": d.nHist, "sim_histories": nsim,
 		"calls": d.nCalls, "cuts": d.nCuts, "restarts": d.nRestarts, "images": d.nImages, "by_kind": d.byKind,
-		"by_tail": d.byTail, "by_outcome": d.byOutcome, "repaired": d.nRepaired, "big_entries": d.nBigEnts,  "events": tw.N})
+		"by_tail": d.byTail, "by_outcome": d.byOutcome, "repaired": d.nRepaired, "big_entries": d.nBigEnts, "max_entry_bytes": d.maxEntBytes,  "events": tw.N})
 	return nil
 }
